@@ -54,6 +54,9 @@ type World struct {
 	inlMemo       map[*ssa.Function]bool
 	fieldLoadMemo map[[2]interface{}][]ssa.Value
 	prrMemo       map[[2]interface{}]bool
+	nonNilInv     int // 0 unknown, 1 holds, 2 not established
+	nilGuardMemo  map[*ssa.If]int
+	condAt        ssa.Instruction
 	sentinelMemo  map[*ssa.Global]bool
 	allocOrd      map[*ssa.Alloc]int
 	files         map[string][]byte
@@ -116,6 +119,7 @@ func loadWorld(repo string, bc BuildConfig, overlay map[string][]byte) (*World, 
 		return a.String() < b.String()
 	})
 	resolveFieldAliases(w)
+	nilGuardEdge = w.nilGuardInfeasible
 	return w, nil
 }
 
